@@ -47,6 +47,25 @@ func (l CfgLit) Config() cors.Config {
 	}
 }
 
+// ConfigAlt is the same configuration as Config() in a shape that is just as legal for a caller: all four lists
+// are consecutive windows of ONE backing array with spare capacity behind each of them (an append to, or an
+// in-place filter of, one list lands in the next), and unused lists are empty but non-nil.
+func (l CfgLit) ConfigAlt() cors.Config {
+	c := l.Config()
+	total := len(l.Origins) + len(l.Methods) + len(l.RequestHeaders) + len(l.ResponseHeaders)
+	back := make([]string, 0, total+8)
+	window := func(src []string) []string {
+		start := len(back)
+		back = append(back, src...)
+		return back[start:len(back):cap(back)]
+	}
+	c.Origins = window(l.Origins)
+	c.Methods = window(l.Methods)
+	c.RequestHeaders = window(l.RequestHeaders)
+	c.ResponseHeaders = window(l.ResponseHeaders)
+	return c
+}
+
 // GoLiteral renders the configuration as Go source for replay tests.
 func (l CfgLit) GoLiteral() string {
 	var b strings.Builder
@@ -79,7 +98,7 @@ type c02Case struct {
 	Cfg     CfgLit     `json:"config"`
 	Intent  ref.Intent `json:"intent"`
 	Debug   bool       `json:"debug"`
-	Perturb int        `json:"perturb"` // 0 none, 1 OWS, 2 empty elements, 3 split in two lines, 4 all
+	Perturb int        `json:"perturb"` // 0 none, 1 OWS, 2 empty elements, 3 split in two lines, 4 all, 10+k split after element k
 	// Route: how the middleware was brought into the configuration (see suite.go); WarmOrigin != "": on routes
 	// that serve requests first, requests from this origin are among them
 	Route      int    `json:"route,omitempty"`
@@ -96,12 +115,31 @@ func c02Warm(o string) []vlib.Req {
 	}
 }
 
+// splitsFor returns the perturbation codes 10+k for every split position of the intent's ACRH value.
+func splitsFor(in ref.Intent) []int {
+	v := ref.UnsafeHeaderValue(in.Headers)
+	n := strings.Count(v, ",")
+	out := make([]int, 0, n)
+	for k := 1; k <= n; k++ {
+		out = append(out, 10+k)
+	}
+	return out
+}
+
 // c02Perturb applies an alteration that the documentation says intermediaries may make.
 func c02Perturb(lines []string, kind int) []string {
 	if len(lines) != 1 || kind == 0 {
 		return lines
 	}
 	els := strings.Split(lines[0], ",")
+	if kind >= 10 {
+		// 10+k: split into two field lines after the k-th element, nothing else altered
+		k := kind - 10
+		if k < 1 || k >= len(els) {
+			return lines
+		}
+		return []string{strings.Join(els[:k], ","), strings.Join(els[k:], ",")}
+	}
 	ows := func(e []string) []string {
 		out := make([]string, len(e))
 		for i, x := range e {
@@ -379,7 +417,12 @@ func checkC02(c *vlib.Ctx) (string, string) {
 				if dbg {
 					h = hs[1]
 				}
-				for _, pt := range perturbs {
+				pts := perturbs
+				if !dbg && len(in.Headers) >= 2 {
+					// the plain list split into two field lines at every position
+					pts = append(append(make([]int, 0, 8), perturbs...), splitsFor(in)...)
+				}
+				for _, pt := range pts {
 					if pt != 0 && (len(in.Headers) == 0) {
 						continue
 					}
@@ -448,7 +491,120 @@ func checkC02(c *vlib.Ctx) (string, string) {
 	c.Set("configurations_accepted", c.States.Load())
 	c.Set("intents_per_configuration", len(intentsFor(0)))
 	c.Set("perturbations", perturbs)
+	c02Tables(c, ck)
 	return levelMC, rule
 }
 
 func init() { registry["C02"] = checkC02 }
+
+// c02Tables: families that walk the lookup tables and the size thresholds rather than a product.
+//   - every spelling (upper, lower, Title) of the methods browsers normalise and of some they do not, as the only
+//     listed method x every such spelling as the intent's method;
+//   - every request-header name "x-"+c (c a token character) as the only listed name x every such name requested;
+//   - configurations whose lists have 17, 33, 65 and 130 entries (origins, methods, request-header names at once) x
+//     one intent per entry and per near miss.
+func c02Tables(c *vlib.Ctx, ck *Checker[c02Case]) {
+	type cell struct {
+		lit CfgLit
+		ins []ref.Intent
+	}
+	var cells []cell
+	const org = "https://a.example"
+	variants := func(s string) []string {
+		lo := strings.ToLower(s)
+		return []string{strings.ToUpper(s), lo, strings.ToUpper(lo[:1]) + lo[1:]}
+	}
+	var mt []string
+	for _, m := range []string{"GET", "HEAD", "POST", "PUT", "DELETE", "OPTIONS", "PATCH", "QUERY", "M-SEARCH", "PROPFIND"} {
+		mt = append(mt, variants(m)...)
+	}
+	var mIntents []ref.Intent
+	for _, m := range mt {
+		mIntents = append(mIntents, ref.Intent{Origin: org, Method: m})
+	}
+	for _, m := range mt {
+		cells = append(cells, cell{CfgLit{Origins: []string{org}, Methods: []string{m}}, mIntents})
+	}
+	var ht []string
+	for b := 0x21; b < 0x7f; b++ {
+		if ref.IsTchar(byte(b)) {
+			ht = append(ht, "x-"+string(rune(b)))
+		}
+	}
+	var hIntents []ref.Intent
+	for _, h := range ht {
+		hIntents = append(hIntents, ref.Intent{Origin: org, Method: "GET", Headers: []string{strings.ToLower(h)}})
+	}
+	for _, h := range ht {
+		cells = append(cells, cell{CfgLit{Origins: []string{org}, RequestHeaders: []string{h}}, hIntents})
+	}
+	for _, n := range []int{17, 33, 65, 130} {
+		lit := CfgLit{TolPSL: true}
+		var ins []ref.Intent
+		for i := 0; i < n; i++ {
+			host := fmt.Sprintf("h%d.big.example", i)
+			switch i % 4 {
+			case 0:
+				lit.Origins = append(lit.Origins, "https://"+host)
+			case 1:
+				lit.Origins = append(lit.Origins, "https://*."+host)
+				host = "sub." + host
+			case 2:
+				lit.Origins = append(lit.Origins, fmt.Sprintf("https://%s:%d", host, 1000+i))
+				host = fmt.Sprintf("%s:%d", host, 1000+i)
+			case 3:
+				lit.Origins = append(lit.Origins, "https://"+host+":*")
+				host += ":77"
+			}
+			lit.Methods = append(lit.Methods, fmt.Sprintf("M%d", i))
+			lit.RequestHeaders = append(lit.RequestHeaders, fmt.Sprintf("X-H%d", i))
+			// the entry itself, and near misses of it
+			ins = append(ins,
+				ref.Intent{Origin: "https://" + host, Method: fmt.Sprintf("M%d", i), Headers: []string{fmt.Sprintf("x-h%d", i)}},
+				ref.Intent{Origin: "https://x" + host, Method: "GET"},
+				ref.Intent{Origin: "https://" + host, Method: fmt.Sprintf("M%d", i+n)},
+				ref.Intent{Origin: "https://" + host, Method: "PUT", Headers: []string{fmt.Sprintf("x-h%d", i+n)}},
+				ref.Intent{Origin: "https://" + host, Method: fmt.Sprintf("m%d", i), Headers: []string{fmt.Sprintf("x-h%d", n-1-i), fmt.Sprintf("x-h%d", i)}})
+		}
+		lit.Methods = append(lit.Methods, "PUT")
+		cells = append(cells, cell{lit, ins})
+		cred := lit
+		cred.Credentialed = true
+		cells = append(cells, cell{cred, ins})
+	}
+	c.ParRange(int64(len(cells)), 1, "C02 tables and sizes", func(i int64) {
+		lit := cells[i].lit
+		if _, err := cors.NewMiddleware(lit.Config()); err != nil {
+			c.Evaluations.Add(1)
+			return
+		}
+		route := int(i % nRoutes)
+		rec := vlib.NewRec()
+		c.States.Add(1)
+		for d := 0; d < 2; d++ {
+			bm, err := buildViaH(route, lit, d == 1)
+			if err != nil {
+				ck.Report(c02Case{Cfg: lit, Route: route, Debug: d == 1}, vlib.Failf("configuration accepted by NewMiddleware but not through route %q: %v", routeNames[route], err))
+				return
+			}
+			h := bm.wrap(http.HandlerFunc(func(http.ResponseWriter, *http.Request) {}))
+			for _, in := range cells[i].ins {
+				want := ref.Permits(lit.Policy(), in)
+				if want {
+					c.Nontrivial.Add(1)
+				}
+				c.Evaluations.Add(1)
+				c.Transitions.Add(2)
+				if got, _ := c02BrowseRec(h, in, 0, rec); got != want {
+					k := c02Case{Cfg: lit, Intent: in, Debug: d == 1, Route: route}
+					if f := vlib.Guard(func() *vlib.Failure { return c02Judge(k) }); f != nil {
+						ck.Report(k, f)
+					} else {
+						vlib.HarnessError("fast path and judge disagree on %+v", k)
+					}
+				}
+			}
+		}
+	})
+	c.Set("table_and_size_cells", len(cells))
+}
